@@ -18,6 +18,11 @@ go build -ldflags=-checklinkname=0 ./... > /tmp/confirm-$ID.build.log 2>&1 || { 
 go vet ./... >/dev/null 2>&1
 timeout 1500 go test -ldflags=-checklinkname=0 -vet=off -count=1 -timeout 25m ./... > /tmp/confirm-$ID.suite.log 2>&1
 SUITE=$?
+if [ $SUITE -ne 0 ]; then
+  # tests that listen on fixed ports (common/utls) collide when several confirmations run at once: re-run the failed packages alone
+  FAILED=$(grep -E "^FAIL\s+\S+" /tmp/confirm-$ID.suite.log | awk '{print $2}' | sort -u | tr '\n' ' ')
+  if [ -n "$FAILED" ]; then sleep $((RANDOM % 20)); timeout 900 go test -ldflags=-checklinkname=0 -vet=off -count=1 -p 1 $FAILED > /tmp/confirm-$ID.suite2.log 2>&1; SUITE=$?; fi
+fi
 if [ $SUITE -ne 0 ]; then echo "RESULT $ID: existing suite FAILS with the change"; grep -E "^(FAIL|---)" /tmp/confirm-$ID.suite.log | head; exit 1; fi
 DEMOFILE=$(ls "$SRC"/demo/*.go | head -1)
 WHERE=$(grep -v '^\s*$' "$SRC/demo/where.txt" | head -1 | awk '{print $NF}')
